@@ -36,7 +36,8 @@ impl<'a> Checksum<'a> {
     } }'''),
            dict(id='U-cktext.checksum_to_text', file=F, fn='try_from', ctx=r"impl<'a> TryFrom<Checksum<'a>> for SmallString",
                 wrap="impl<'a> TryFrom<Checksum<'a>> for SmallString", vis='',
-                properties=['C04', 'C12', 'C06', 'C05', 'C10'],
+                # build() canonicalises or refuses through this conversion: every property that speaks about what build() accepts and stores
+                properties=['C04', 'C12', 'C06', 'C05', 'C10', 'C09', 'C14', 'C01', 'C02'],
                 begin='    proof { axiom_string_from(); }\n    let ghost m = value.entries();',
                 rw=[('R5', r'value\.algorithms\.into_iter\(\)\.collect\(\)', 'x_hm_into_vec(value.algorithms)', 1),
                     ('R5', r'algorithms\.sort_unstable_by\(\|a, b\| a\.0\.cmp\(&b\.0\)\);', 'x_sort_by_key0(&mut algorithms);', 1),
